@@ -743,3 +743,423 @@ Theorem inv_run ops : inv (run ops).
 Proof.
   induction ops as [|o ops IH] using rev_ind; [apply inv0|]. rewrite run_app. apply inv_step; auto.
 Qed.
+
+(* ---------- refinement to the set specification ---------- *)
+Definition spec_eq (x y : spec) : Prop :=
+  (forall k a, sm x k a = sm y k a) /\ (forall k a, gm x k a = gm y k a) /\
+  (forall s a, wm x s a = wm y s a) /\ (forall a, sdead x a = sdead y a).
+
+Lemma spec_eq_refl x : spec_eq x x.
+Proof. repeat split; auto. Qed.
+
+Lemma spec_step_eq x y o : spec_eq x y -> spec_eq (spec_step x o) (spec_step y o).
+Proof.
+  intros [A [B [C D]]]. destruct o; simpl; repeat split; simpl; intros;
+    repeat rewrite A; repeat rewrite B; repeat rewrite C; repeat rewrite D; auto.
+Qed.
+Lemma spec_eq_trans x y z : spec_eq x y -> spec_eq y z -> spec_eq x z.
+Proof.
+  intros [A [B [C D]]] [A' [B' [C' D']]]. repeat split; intros; congruence.
+Qed.
+
+Lemma beq_iff (b1 b2 : bool) : (b1 = true <-> b2 = true) -> b1 = b2.
+Proof. destruct b1, b2; intuition congruence. Qed.
+
+(* membership / listener characterisation of each operation *)
+Lemma join_mem st s g acts b k :
+  In b (mem_of (fst (join st s g acts)) k) <->
+  In b (mem_of st k) \/ (k = (s, g) /\ In b acts /\ p_dead st b = false).
+Proof.
+  unfold join. set (kept := filter (fun a => negb (p_dead st a)) acts).
+  assert (HK : forall x, In x kept <-> In x acts /\ p_dead st x = false).
+  { intros x. unfold kept. rewrite filter_In, negb_true_iff. tauto. }
+  destruct (null kept) eqn:EK.
+  - apply null_nil in EK. simpl. split; auto. intros [H|[_ H]]; auto.
+    apply HK in H. rewrite EK in H. destruct H.
+  - simpl. unfold mem_of at 1. unfold gs_of. simpl. unfold kupd. kcase (s, g) k; simpl.
+    + rewrite In_fold_nadd, HK. intuition.
+    + intuition congruence.
+Qed.
+Lemma join_lis st s g acts k : lis_of (fst (join st s g acts)) k = lis_of st k.
+Proof.
+  unfold join. destruct (null _); auto. simpl. unfold lis_of, gs_of. simpl. unfold kupd.
+  kcase (s, g) k; auto.
+Qed.
+Lemma join_world st s g acts s' : world_of (fst (join st s g acts)) s' = world_of st s'.
+Proof. unfold join. destruct (null _); auto. Qed.
+Lemma join_dead st s g acts : p_dead (fst (join st s g acts)) = p_dead st.
+Proof. unfold join. destruct (null _); auto. Qed.
+
+Lemma leave_mem st s g acts b k :
+  In b (mem_of (fst (leave st s g acts)) k) <->
+  In b (mem_of st k) /\ ~ (k = (s, g) /\ In b acts).
+Proof.
+  unfold leave. destruct (p_map st (s, g)) as [gs|] eqn:EG.
+  - simpl. unfold mem_of at 1. rewrite gs_of_ogs. simpl. unfold kupd. kcase (s, g) k.
+    + rewrite ogs_norm. simpl. rewrite In_filter_notin. unfold mem_of, gs_of. rewrite EG. intuition.
+    + unfold mem_of. rewrite gs_of_ogs. intuition congruence.
+  - simpl. split; [|tauto]. intros H. split; auto. intros [-> _].
+    unfold mem_of, gs_of in H. rewrite EG in H. destruct H.
+Qed.
+Lemma leave_lis st s g acts k : lis_of (fst (leave st s g acts)) k = lis_of st k.
+Proof.
+  unfold leave. destruct (p_map st (s, g)) as [gs|] eqn:EG; auto.
+  simpl. unfold lis_of at 1. rewrite gs_of_ogs. simpl. unfold kupd. kcase (s, g) k; auto.
+  rewrite ogs_norm. unfold lis_of, gs_of. rewrite EG. auto.
+Qed.
+Lemma leave_world st s g acts s' : world_of (fst (leave st s g acts)) s' = world_of st s'.
+Proof. unfold leave. destruct (p_map st (s, g)); auto. Qed.
+Lemma leave_dead st s g acts : p_dead (fst (leave st s g acts)) = p_dead st.
+Proof. unfold leave. destruct (p_map st (s, g)); auto. Qed.
+
+Lemma monitor_gs st g a k :
+  gs_of (monitor st g a) k =
+  if keqb (DEFAULT, g) k && negb (p_dead st a)
+  then mkG (mem_of st k) (nadd a (lis_of st k)) else gs_of st k.
+Proof.
+  unfold monitor. destruct (p_dead st a); simpl.
+  - rewrite andb_false_r. rewrite !gs_of_ogs. simpl. rewrite ogs_remove_empty. unfold kupd.
+    kcase (DEFAULT, g) k; auto.
+  - rewrite andb_true_r. unfold gs_of at 1. simpl. unfold kupd. kcase (DEFAULT, g) k; auto.
+Qed.
+Lemma monitor_world st g a s : world_of (monitor st g a) s = world_of st s.
+Proof. unfold monitor. destruct (p_dead st a); auto. Qed.
+Lemma monitor_dead st g a : p_dead (monitor st g a) = p_dead st.
+Proof. unfold monitor. destruct (p_dead st a); auto. Qed.
+
+Lemma monitor_scope_gs st s a k : gs_of (monitor_scope st s a) k = gs_of st k.
+Proof. unfold monitor_scope. destruct (p_dead st a); auto. Qed.
+Lemma monitor_scope_world st s a s' :
+  world_of (monitor_scope st s a) s' =
+  if N.eqb s s' && negb (p_dead st a) then nadd a (world_of st s') else world_of st s'.
+Proof.
+  unfold monitor_scope. destruct (p_dead st a); simpl.
+  - rewrite andb_false_r. rewrite !world_of_olist. simpl. rewrite olist_world_remove_empty.
+    unfold nupd. ncase s s'; auto.
+  - rewrite andb_true_r. unfold world_of at 1. simpl. unfold nupd. ncase s s'; auto.
+Qed.
+Lemma monitor_scope_dead st s a : p_dead (monitor_scope st s a) = p_dead st.
+Proof. unfold monitor_scope. destruct (p_dead st a); auto. Qed.
+
+Lemma demonitor_gs st g a k :
+  gs_of (demonitor st g a) k =
+  if keqb (DEFAULT, g) k then mkG (mem_of st k) (nrem a (lis_of st k)) else gs_of st k.
+Proof.
+  unfold demonitor. destruct (p_map st (DEFAULT, g)) as [gs|] eqn:EG.
+  - rewrite gs_of_ogs. simpl. unfold kupd. kcase (DEFAULT, g) k; auto.
+    rewrite ogs_norm. unfold mem_of, lis_of, gs_of. rewrite EG. auto.
+  - kcase (DEFAULT, g) k; auto. unfold mem_of, lis_of, gs_of. simpl. rewrite EG. auto.
+Qed.
+Lemma demonitor_world st g a s : world_of (demonitor st g a) s = world_of st s.
+Proof. unfold demonitor. destruct (p_map st (DEFAULT, g)); auto. Qed.
+Lemma demonitor_dead st g a : p_dead (demonitor st g a) = p_dead st.
+Proof. unfold demonitor. destruct (p_map st (DEFAULT, g)); auto. Qed.
+
+Lemma demonitor_scope_gs st s a k : gs_of (demonitor_scope st s a) k = gs_of st k.
+Proof. unfold demonitor_scope. destruct (p_world st s); auto. Qed.
+Lemma demonitor_scope_world st s a s' :
+  world_of (demonitor_scope st s a) s' = if N.eqb s s' then nrem a (world_of st s') else world_of st s'.
+Proof.
+  unfold demonitor_scope. destruct (p_world st s) as [ls|] eqn:EG.
+  - rewrite world_of_olist. simpl. unfold nupd. ncase s s'; auto.
+    rewrite olist_norm. unfold world_of. rewrite EG. auto.
+  - ncase s s'; auto. unfold world_of. simpl. rewrite EG. auto.
+Qed.
+Lemma demonitor_scope_dead st s a : p_dead (demonitor_scope st s a) = p_dead st.
+Proof. unfold demonitor_scope. destruct (p_world st s); auto. Qed.
+
+Lemma exit_acc st a : inv st ->
+  let st' := fst (exit_ st a) in
+  (forall k, mem_of st' k = nrem a (mem_of st k)) /\
+  (forall k, lis_of st' k = nrem a (lis_of st k)) /\
+  (forall s, world_of st' s = nrem a (world_of st s)) /\
+  (forall b, p_dead st' b = p_dead st b || N.eqb a b).
+Proof.
+  intros I. destruct (p_dead st a) eqn:D.
+  - destruct (dead_nowhere _ _ I D) as [A [B [C _]]].
+    unfold exit_. rewrite D. simpl. repeat split; intros; try (rewrite nrem_notin; auto).
+    ncase a b; [rewrite D; auto|rewrite orb_false_r; auto].
+  - destruct (p_rels st a) as [r|] eqn:R.
+    + simpl. rewrite (exit_some _ _ r); auto. repeat split; intros.
+      * apply x_mem; auto. * apply x_lis; auto. * apply x_world; auto.
+      * simpl. unfold nupd. ncase a b; [rewrite orb_true_r|rewrite orb_false_r]; auto.
+    + assert (E : rel_of st a = empty_rel) by (unfold rel_of; rewrite R; auto).
+      unfold exit_. rewrite D, R. simpl. repeat split; intros.
+      * rewrite nrem_notin; auto. rewrite <- (i_rmem _ I), E. simpl. tauto.
+      * rewrite nrem_notin; auto. rewrite <- (i_rgmon _ I), E. simpl. tauto.
+      * rewrite nrem_notin; auto. rewrite <- (i_rwmon _ I), E. simpl. tauto.
+      * unfold nupd. ncase a b; [rewrite orb_true_r|rewrite orb_false_r]; auto.
+Qed.
+
+Lemma nmem_nadd b a l : nmem b (nadd a l) = nmem b l || N.eqb a b.
+Proof.
+  apply beq_iff. rewrite orb_true_iff, !nmem_In, In_nadd, N.eqb_eq. intuition.
+Qed.
+Lemma nmem_nrem b a l : nmem b (nrem a l) = nmem b l && negb (N.eqb a b).
+Proof.
+  apply beq_iff. rewrite andb_true_iff, !nmem_In, In_nrem, negb_true_iff, N.eqb_neq. intuition.
+Qed.
+
+Theorem refine_step st o : inv st -> spec_eq (abs (fst (step st o))) (spec_step (abs st) o).
+Proof.
+  intros I. destruct o as [s g acts|s g acts|g a0|s a0|g a0|s a0|a0]; simpl.
+  - repeat split; simpl; intros.
+    + apply beq_iff. rewrite orb_true_iff, !andb_true_iff, negb_true_iff, keqb_true, !nmem_In, join_mem.
+      intuition.
+    + rewrite join_lis. auto.
+    + rewrite join_world. auto.
+    + rewrite join_dead. auto.
+  - repeat split; simpl; intros.
+    + apply beq_iff. rewrite andb_true_iff, negb_true_iff, andb_false_iff, keqb_false, nmem_nIn, !nmem_In, leave_mem.
+      assert (X : k = (s, g) <-> (s, g) = k) by (split; congruence).
+      destruct (keqb_spec (s, g) k); destruct (in_dec N.eq_dec a acts); tauto.
+    + rewrite leave_lis. auto.
+    + rewrite leave_world. auto.
+    + rewrite leave_dead. auto.
+  - repeat split; simpl; intros.
+    + unfold mem_of. rewrite monitor_gs. destruct (_ && _); auto.
+    + unfold lis_of. rewrite monitor_gs. kcase (DEFAULT, g) k; simpl.
+      * destruct (p_dead st a0) eqn:D; simpl.
+        -- ncase a0 a; [rewrite D|]; simpl; rewrite orb_false_r; auto.
+        -- rewrite nmem_nadd. fold (lis_of st (DEFAULT, g)). ncase a0 a; simpl; auto. rewrite D. auto.
+      * rewrite orb_false_r. auto.
+    + rewrite monitor_world. auto.
+    + rewrite monitor_dead. auto.
+  - repeat split; simpl; intros.
+    + unfold mem_of. rewrite monitor_scope_gs. auto.
+    + unfold lis_of. rewrite monitor_scope_gs. auto.
+    + rewrite monitor_scope_world. ncase s s0; simpl.
+      * destruct (p_dead st a0) eqn:D; simpl.
+        -- ncase a0 a; [rewrite D|]; simpl; rewrite orb_false_r; auto.
+        -- rewrite nmem_nadd. ncase a0 a; simpl; auto. rewrite D. auto.
+      * rewrite orb_false_r. auto.
+    + rewrite monitor_scope_dead. auto.
+  - repeat split; simpl; intros.
+    + unfold mem_of. rewrite demonitor_gs. destruct (keqb _ _); auto.
+    + unfold lis_of. rewrite demonitor_gs. kcase (DEFAULT, g) k; simpl.
+      * rewrite nmem_nrem. auto.
+      * rewrite andb_true_r. auto.
+    + rewrite demonitor_world. auto.
+    + rewrite demonitor_dead. auto.
+  - repeat split; simpl; intros.
+    + unfold mem_of. rewrite demonitor_scope_gs. auto.
+    + unfold lis_of. rewrite demonitor_scope_gs. auto.
+    + rewrite demonitor_scope_world. ncase s s0; simpl.
+      * rewrite nmem_nrem. auto.
+      * rewrite andb_true_r. auto.
+    + rewrite demonitor_scope_dead. auto.
+  - destruct (exit_acc st a0 I) as [A [B [C D]]]. repeat split; simpl; intros.
+    + rewrite A, nmem_nrem. auto.
+    + rewrite B, nmem_nrem. auto.
+    + rewrite C, nmem_nrem. auto.
+    + rewrite D. auto.
+Qed.
+
+Lemma spec_run_app ops o : spec_run (ops ++ [o]) = spec_step (spec_run ops) o.
+Proof. unfold spec_run. rewrite fold_left_app. reflexivity. Qed.
+
+Theorem refine_run ops : spec_eq (abs (run ops)) (spec_run ops).
+Proof.
+  induction ops as [|o ops IH] using rev_ind.
+  - repeat split; auto.
+  - rewrite run_app, spec_run_app.
+    eapply spec_eq_trans; [apply refine_step, inv_run|apply spec_step_eq, IH].
+Qed.
+
+(* ---------- queries: a group is listed iff it has members ---------- *)
+Lemma In_kdedup x l : In x (kdedup l) <-> In x l.
+Proof.
+  induction l as [|y l IH]; simpl; [tauto|]. destruct (kmem y l) eqn:E.
+  - apply kmem_In in E. rewrite IH. intuition (subst; auto).
+  - simpl. rewrite IH. tauto.
+Qed.
+Lemma NoDup_kdedup l : NoDup (kdedup l).
+Proof.
+  induction l as [|y l IH]; simpl; [constructor|]. destruct (kmem y l) eqn:E; auto.
+  constructor; auto. rewrite In_kdedup. apply kmem_nIn; auto.
+Qed.
+Lemma In_ndedup x l : In x (ndedup l) <-> In x l.
+Proof.
+  induction l as [|y l IH]; simpl; [tauto|]. destruct (nmem y l) eqn:E.
+  - apply nmem_In in E. rewrite IH. intuition (subst; auto).
+  - simpl. rewrite IH. tauto.
+Qed.
+Lemma NoDup_ndedup l : NoDup (ndedup l).
+Proof.
+  induction l as [|y l IH]; simpl; [constructor|]. destruct (nmem y l) eqn:E; auto.
+  constructor; auto. rewrite In_ndedup. apply nmem_nIn; auto.
+Qed.
+
+Lemma wsg_spec st k : inv st -> In k (which_scopes_and_groups st) <-> mem_of st k <> [].
+Proof.
+  intros I. unfold which_scopes_and_groups. rewrite filter_In, In_kdedup, negb_true_iff, null_false.
+  split; [tauto|]. intros H; split; auto. apply (i_mkeys _ I). intros E. apply H.
+  unfold mem_of, gs_of. rewrite E. auto.
+Qed.
+Lemma wsg_nodup st : NoDup (which_scopes_and_groups st).
+Proof. apply NoDup_filter, NoDup_kdedup. Qed.
+Lemma which_groups_spec st g : inv st ->
+  In g (which_groups st) <-> exists s, get_members st s g <> [].
+Proof.
+  intros I. unfold which_groups, get_members. rewrite In_ndedup, in_map_iff. split.
+  - intros [[s g'] [E H]]. simpl in E. subst. exists s. apply wsg_spec; auto.
+  - intros [s H]. exists (s, g). split; auto. apply wsg_spec; auto.
+Qed.
+Lemma which_scopes_spec st s : inv st ->
+  In s (which_scopes st) <-> exists g, get_members st s g <> [].
+Proof.
+  intros I. unfold which_scopes, get_members. rewrite In_ndedup, in_map_iff. split.
+  - intros [[s' g] [E H]]. simpl in E. subst. exists g. apply wsg_spec; auto.
+  - intros [g H]. exists (s, g). split; auto. apply wsg_spec; auto.
+Qed.
+
+Theorem index_agree st : inv st ->
+  (forall s g, In g (which_scoped_groups st s) <-> get_members st s g <> []) /\
+  (forall s g, In (s, g) (which_scopes_and_groups st) <-> get_members st s g <> []) /\
+  (forall g, In g (which_groups st) <-> exists s, get_members st s g <> []) /\
+  (forall s, In s (which_scopes st) <-> exists g, get_members st s g <> []) /\
+  (forall s g, get_local_members st s g = filter is_local (get_members st s g)) /\
+  (forall s, NoDup (which_scoped_groups st s)) /\ NoDup (which_scopes_and_groups st) /\
+  NoDup (which_groups st) /\ NoDup (which_scopes st) /\ (forall s g, NoDup (get_members st s g)).
+Proof.
+  intros I. repeat split; try (intros; apply NoDup_ndedup); try apply wsg_nodup;
+    try (intros; apply (i_nd_index _ I)); try (intros; apply (i_nd_mem _ I)).
+  - apply (i_index _ I). - apply (i_index _ I).
+  - apply wsg_spec; auto. - apply wsg_spec; auto.
+  - apply which_groups_spec; auto. - apply which_groups_spec; auto.
+  - apply which_scopes_spec; auto. - apply which_scopes_spec; auto.
+Qed.
+
+(* every query of a run answers from the specification's sets *)
+Theorem members_spec ops s g a :
+  In a (get_members (run ops) s g) <-> sm (spec_run ops) (s, g) a = true.
+Proof.
+  destruct (refine_run ops) as [A _]. rewrite <- A. simpl. rewrite nmem_In. tauto.
+Qed.
+
+(* ---------- no zombie ---------- *)
+Lemma dead_mono st o a : p_dead st a = true -> p_dead (fst (step st o)) a = true.
+Proof.
+  intros H. destruct o; simpl.
+  - rewrite join_dead; auto. - rewrite leave_dead; auto. - rewrite monitor_dead; auto.
+  - rewrite monitor_scope_dead; auto. - rewrite demonitor_dead; auto. - rewrite demonitor_scope_dead; auto.
+  - unfold exit_. destruct (p_dead st a0) eqn:D; auto. destruct (p_rels st a0); simpl; unfold nupd;
+      ncase a0 a; auto.
+Qed.
+Lemma exit_dead st a : p_dead (fst (exit_ st a)) a = true.
+Proof.
+  unfold exit_. destruct (p_dead st a) eqn:D; auto. destruct (p_rels st a); simpl; apply nupd_eq.
+Qed.
+Lemma run_app2 ops1 ops2 : run (ops1 ++ ops2) = fold_left (fun st o => fst (step st o)) ops2 (run ops1).
+Proof. unfold run. apply fold_left_app. Qed.
+Lemma dead_mono_run ops st a :
+  p_dead st a = true -> p_dead (fold_left (fun st o => fst (step st o)) ops st) a = true.
+Proof. revert st; induction ops as [|o ops IH]; simpl; intros st H; auto. apply IH, dead_mono, H. Qed.
+
+Theorem no_zombie ops1 ops2 a :
+  let st := run (ops1 ++ OExit a :: ops2) in
+  (forall k, ~ In a (mem_of st k)) /\ (forall k, ~ In a (lis_of st k)) /\
+  (forall s, ~ In a (world_of st s)) /\ p_rels st a = None.
+Proof.
+  intros st. apply dead_nowhere; [apply inv_run|].
+  unfold st. rewrite run_app2. simpl. apply dead_mono_run, exit_dead.
+Qed.
+
+(* an actor whose Stopping status is published is never added by any operation *)
+Theorem never_added st o a k : inv st -> p_dead st a = true ->
+  ~ In a (mem_of (fst (step st o)) k) /\ ~ In a (lis_of (fst (step st o)) k).
+Proof.
+  intros I D.
+  assert (D' := dead_mono st o a D). assert (I' := inv_step st o I).
+  destruct (dead_nowhere _ _ I' D') as [A [B _]]. auto.
+Qed.
+
+(* ---------- notifications ---------- *)
+(* the recipients the code reads for a change of (s,g): the group's listeners, the scope's
+   listeners, the all-scopes listeners, in this order *)
+Definition recipients (st : pg) (s g : N) : list N :=
+  lis_of st (s, g) ++ world_of st s ++ world_of st WORLD.
+
+Lemma notify_world_eq st isj s g acts :
+  notify_world (p_world st) isj s g acts
+  = map (fun l => mkEv l isj s g acts) (world_of st s ++ world_of st WORLD).
+Proof. unfold notify_world, notify_list, world_of. simpl. rewrite app_nil_r, map_app. auto. Qed.
+
+Lemma notify_all_eq st lis isj s g acts :
+  notify_list lis isj s g acts ++ notify_world (p_world st) isj s g acts
+  = map (fun l => mkEv l isj s g acts) (lis ++ world_of st s ++ world_of st WORLD).
+Proof. rewrite notify_world_eq. unfold notify_list. rewrite <- map_app. auto. Qed.
+
+Theorem notify_join st s g acts :
+  snd (join st s g acts) =
+  let kept := filter (fun a => negb (p_dead st a)) acts in
+  if null kept then [] else map (fun l => mkEv l true s g kept) (recipients st s g).
+Proof.
+  unfold join. simpl. destruct (null _); auto. simpl. rewrite notify_all_eq. reflexivity.
+Qed.
+
+Definition has_entry (st : pg) (k : key) : bool := match p_map st k with Some _ => true | None => false end.
+
+Theorem notify_leave st s g acts :
+  snd (leave st s g acts) =
+  if has_entry st (s, g) then map (fun l => mkEv l false s g acts) (recipients st s g) else [].
+Proof.
+  unfold leave, has_entry. destruct (p_map st (s, g)) as [gs|] eqn:E; auto. simpl.
+  rewrite notify_all_eq. unfold recipients, lis_of, gs_of. rewrite E. reflexivity.
+Qed.
+
+Lemma entry_iff st k : inv st -> has_entry st k = true <-> (mem_of st k <> [] \/ lis_of st k <> []).
+Proof.
+  intros I. unfold has_entry, mem_of, lis_of, gs_of. pose proof (i_noempty _ I k) as X.
+  destruct (p_map st k) as [[m l]|]; simpl.
+  - split; auto. intros _. destruct m; [|left; congruence]. destruct l; [congruence|right; congruence].
+  - split; [congruence|]. intros [H|H]; congruence.
+Qed.
+
+Lemma flat_map_ext_in {A B} (f g : A -> list B) l :
+  (forall x, In x l -> f x = g x) -> flat_map f l = flat_map g l.
+Proof.
+  induction l as [|x l IH]; simpl; intros H; auto. rewrite H, IH; auto.
+Qed.
+
+Theorem notify_exit st a : inv st -> p_dead st a = false ->
+  let st' := fst (exit_ st a) in
+  snd (exit_ st a) =
+  flat_map (fun k => map (fun l => mkEv l false (fst k) (snd k) [a]) (recipients st' (fst k) (snd k)))
+           (r_mem (rel_of st a)).
+Proof.
+  intros I D. destruct (p_rels st a) as [r|] eqn:R.
+  - simpl. rewrite (exit_some _ _ r); auto. unfold exit_. rewrite D, R. simpl.
+    rewrite (x_rel st a r R). apply flat_map_ext_in. intros k Hk.
+    fold (x_world1 st a r).
+    change (if kmem k (r_gmon r) then gclean a (p_map st k) else p_map st k) with (x_map1 st a r k).
+    pose proof (x_ogs1 st a r I R k) as O.
+    assert (Hm : In a (mem_of st k)) by (apply (i_rmem _ I); rewrite (x_rel st a r R); auto).
+    destruct (x_map1 st a r k) as [gs|] eqn:EM; simpl in O.
+    + subst gs. simpl. apply nmem_In in Hm. rewrite Hm.
+      change (x_world1 st a r) with (p_world (x_st' st a r)). rewrite notify_all_eq.
+      destruct k as [s g]. unfold recipients. simpl. rewrite (x_lis st a r I R). reflexivity.
+    + inversion O as [[O1 O2]]. rewrite <- O1 in Hm. destruct Hm.
+  - unfold exit_. rewrite D, R. simpl. unfold rel_of. rewrite R. reflexivity.
+Qed.
+
+Lemma exit_dead_noev st a : p_dead st a = true -> snd (exit_ st a) = [].
+Proof. intros D. unfold exit_. rewrite D. auto. Qed.
+
+(* multiplicity: each listener occurs once per monitor relation it holds *)
+Lemma count_nodup x l : NoDup l -> count_occ N.eq_dec l x = b2n (nmem x l).
+Proof.
+  induction l as [|y l IH]; simpl; intros ND; auto. inversion ND; subst.
+  destruct (N.eq_dec y x).
+  - subst. rewrite N.eqb_refl. simpl. rewrite IH; auto.
+    assert (nmem x l = false) by (apply nmem_nIn; auto). rewrite H. auto.
+  - rewrite IH; auto. assert (E : N.eqb x y = false) by (apply N.eqb_neq; congruence).
+    unfold nmem at 2. simpl. rewrite E. auto.
+Qed.
+
+Theorem recipients_count st s g l : inv st ->
+  count_occ N.eq_dec (recipients st s g) l = fanout (abs st) s g l.
+Proof.
+  intros I. unfold recipients, fanout. rewrite !count_occ_app. simpl.
+  rewrite !count_nodup; try apply I. lia.
+Qed.
